@@ -1,12 +1,20 @@
 /* C02 / C03 — what a reader returns does not depend on how the caller consumes it, nor on the I/O path (engine E2).
- * The file is produced in the same run by the real writer (concrete content, several pages per chunk); the CALL HISTORY
- * is symbolic: each of NOPS operations is a symbolic choice among read_batch(k), skip(k), has_next/remaining and
- * re-creation of the column reader, with symbolic k in 0..N+1.  A reference cursor over the known logical content
- * gives the expected result of every call.  Convention for nullable columns (the one the writer API documents and the
- * repository's own example uses): a read of n rows delivers n definition levels and the non-null values of those rows
- * densely packed at the start of the value buffer.
- * MODE 1: column reader history      MODE 2: batch reader (symbolic batch_size, projection)
- * OPENMODE: 0 buffer, 1 stdio, 2 mmap, 3 = all three in one path with pairwise comparison (C03) */
+ * The file is produced in the same run by the real writer (concrete content, several pages per chunk, optionally several
+ * row groups and a compressing codec); the CALL HISTORY is symbolic: each of NOPS operations is a symbolic choice among
+ * read_batch(k), skip(k), has_next/remaining and re-creation of the column reader (H_OPS5: also read_batch(k) without
+ * level buffers; H_RW_ONLY: read/skip only), with symbolic k in 0..rows+1 (H_KMAX: every k in 0..H_KMAX by path forking).  A reference cursor over the known logical content gives the expected
+ * result of every call.  Convention for nullable columns (the one the writer API documents and the repository's own
+ * example uses): a read of n rows delivers n definition levels and the non-null values of those rows densely packed at
+ * the start of the value buffer.
+ * MODE 1: column reader history (column "x" of a symbolically chosen row group)
+ * MODE 2: batch reader (symbolic batch_size, projection)          MODE 3: metadata + column readers in all I/O modes (C03)
+ * OPENMODE: 0 buffer, 1 stdio, 2 mmap, 3 = all three in one path with byte-for-byte comparison (C03), 4 = one of the three
+ *           per path (symbolic choice)
+ * Table: column 0 "x" (type H_CT / H_OPT, or the legacy COLTYPE), column 1 "id" INT32 REQUIRED (= 1000 + row), with
+ * H_NCOLS == 3 a third column "y" (H_YT / H_YOPT).  H_RGS: rows per row group.  PAGEPATTERN: rows per write_batch call
+ * (= rows per page, page_size is tiny), restarting in every column chunk.
+ * H_PROJ 1: every index list of length 1..H_NCOLS over the columns (repetitions and reorderings included), the same lists
+ * by name, and "all columns". */
 #include "pq_common.h"
 
 #ifndef N
@@ -19,7 +27,46 @@
 #define BATCH 3          /* rows per write_batch call = rows per page (page_size is tiny) */
 #endif
 #ifndef COLTYPE
-#define COLTYPE 0        /* 0 INT32 OPTIONAL, 1 INT64 REQUIRED, 2 BYTE_ARRAY OPTIONAL, 3 BOOLEAN OPTIONAL, 4 DOUBLE OPTIONAL */
+#define COLTYPE 0        /* legacy: 0 INT32 OPTIONAL, 1 INT64 REQUIRED, 2 BYTE_ARRAY OPTIONAL, 3 BOOLEAN OPTIONAL, 4 DOUBLE OPTIONAL */
+#endif
+#ifndef H_CT             /* 0 BOOLEAN 1 INT32 2 INT64 3 FLOAT 4 DOUBLE 5 BYTE_ARRAY 6 FIXED_LEN_BYTE_ARRAY(H_FL) */
+  #if COLTYPE == 0
+    #define H_CT 1
+    #define H_OPT 1
+  #elif COLTYPE == 1
+    #define H_CT 2
+    #define H_OPT 0
+  #elif COLTYPE == 2
+    #define H_CT 5
+    #define H_OPT 1
+  #elif COLTYPE == 3
+    #define H_CT 0
+    #define H_OPT 1
+  #else
+    #define H_CT 4
+    #define H_OPT 1
+  #endif
+#endif
+#ifndef H_OPT
+#define H_OPT 1
+#endif
+#ifndef H_FL
+#define H_FL 5
+#endif
+#ifndef H_NCOLS
+#define H_NCOLS 2
+#endif
+#ifndef H_YT
+#define H_YT 5
+#endif
+#ifndef H_YOPT
+#define H_YOPT 1
+#endif
+#ifndef H_PROJ
+#define H_PROJ 0
+#endif
+#ifndef H_PS
+#define H_PS 1           /* page_size option: 1 = every write_batch call ends its page */
 #endif
 #ifndef CODEC
 #define CODEC CARQUET_COMPRESSION_UNCOMPRESSED
@@ -28,107 +75,154 @@
 
 static pq_schema_t S; static pq_column_t C[PQ_MAXCOLS];
 static const int16_t DEFPAT[24] = {1,0,1, 1,0,0, 0,1,1, 1,1,1, 0,0,0, 1,0,1, 0,1,0, 1,1,0};
+static const carquet_physical_type_t PT[7] = {CARQUET_PHYSICAL_BOOLEAN, CARQUET_PHYSICAL_INT32, CARQUET_PHYSICAL_INT64, CARQUET_PHYSICAL_FLOAT,
+    CARQUET_PHYSICAL_DOUBLE, CARQUET_PHYSICAL_BYTE_ARRAY, CARQUET_PHYSICAL_FIXED_LEN_BYTE_ARRAY};
+#ifdef H_RGS
+static const int RGS[] = { H_RGS };
+#else
+static const int RGS[] = { N };
+#endif
+#define NRG ((int)(sizeof RGS / sizeof RGS[0]))
+
+/* concrete content of one column: a function of (type, salt, row) */
+static void fill_col(int c, int ct, int opt, int salt) {
+    S.type[c] = PT[ct]; S.rep[c] = opt ? CARQUET_REPETITION_OPTIONAL : CARQUET_REPETITION_REQUIRED; S.type_len[c] = ct == 6 ? H_FL : 0;
+    int nv = 0;
+    for (int i = 0; i < N; i++) {
+        C[c].def[i] = opt ? DEFPAT[(i + 5 * salt) % 24] : 1;
+        if (!C[c].def[i]) continue;
+        int s = i + 3 * salt;
+        switch (ct) {
+            case 0: C[c].vals[nv] = (uint8_t)((s * 5 + 1) % 3 == 0); break;
+            case 1: { int32_t v = 10 * (s + 1); memcpy(C[c].vals + 4 * nv, &v, 4); break; }
+            case 2: { int64_t v = -7 + 100000000000LL * s; memcpy(C[c].vals + 8 * nv, &v, 8); break; }
+            case 3: { uint32_t v = 0xBF800000u + 0x00200000u * (uint32_t)s; memcpy(C[c].vals + 4 * nv, &v, 4); break; }      /* float bit patterns from -1.0 upwards in magnitude */
+            case 4: { uint64_t v = 0xC000000000000000ull + 0x0004000000000000ull * (uint64_t)s; memcpy(C[c].vals + 8 * nv, &v, 8); break; }
+            case 5: C[c].ba_bytes[3 * nv] = (uint8_t)('a' + s); C[c].ba_bytes[3 * nv + 1] = (uint8_t)('A' + s); C[c].ba_bytes[3 * nv + 2] = (uint8_t)('0' + s);
+                    C[c].ba[nv].data = C[c].ba_bytes + 3 * nv; C[c].ba[nv].length = (s % 4); break;      /* lengths 0..3 */
+            default: for (int j = 0; j < H_FL; j++) C[c].vals[H_FL * nv + j] = (uint8_t)((s * H_FL + j) * 7 + 1); break;
+        }
+        nv++;
+    }
+    C[c].nrows = N;
+}
 
 static void table(void) {
     memset(&S, 0, sizeof S); memset(C, 0, sizeof C);
-    S.ncols = 2;
-    S.name[0] = "x"; S.name[1] = "id";
+    S.ncols = H_NCOLS;
+    S.name[0] = "x"; S.name[1] = "id"; S.name[2] = "y";
+    fill_col(0, H_CT, H_OPT, 0);
     S.type[1] = CARQUET_PHYSICAL_INT32; S.rep[1] = CARQUET_REPETITION_REQUIRED;
-    for (int i = 0; i < N; i++) { int32_t v = 1000 + i; memcpy(C[1].vals + 4 * i, &v, 4); }
-#if COLTYPE == 0
-    S.type[0] = CARQUET_PHYSICAL_INT32; S.rep[0] = CARQUET_REPETITION_OPTIONAL;
-#elif COLTYPE == 1
-    S.type[0] = CARQUET_PHYSICAL_INT64; S.rep[0] = CARQUET_REPETITION_REQUIRED;
-#elif COLTYPE == 2
-    S.type[0] = CARQUET_PHYSICAL_BYTE_ARRAY; S.rep[0] = CARQUET_REPETITION_OPTIONAL;
-#elif COLTYPE == 3
-    S.type[0] = CARQUET_PHYSICAL_BOOLEAN; S.rep[0] = CARQUET_REPETITION_OPTIONAL;
-#else
-    S.type[0] = CARQUET_PHYSICAL_DOUBLE; S.rep[0] = CARQUET_REPETITION_OPTIONAL;
-#endif
-    int nv = 0;
-    for (int i = 0; i < N; i++) {
-        C[0].def[i] = S.rep[0] == CARQUET_REPETITION_REQUIRED ? 1 : DEFPAT[i];
-        if (!C[0].def[i]) continue;
-#if COLTYPE == 0
-        int32_t v = 10 * (i + 1); memcpy(C[0].vals + 4 * nv, &v, 4);
-#elif COLTYPE == 1
-        int64_t v = -7 + 100000000000LL * i; memcpy(C[0].vals + 8 * nv, &v, 8);
-#elif COLTYPE == 2
-        C[0].ba_bytes[3 * nv] = 'a' + i; C[0].ba_bytes[3 * nv + 1] = 'A' + i; C[0].ba_bytes[3 * nv + 2] = '0' + i;
-        C[0].ba[nv].data = C[0].ba_bytes + 3 * nv; C[0].ba[nv].length = (i % 4);      /* lengths 0..3 */
-#elif COLTYPE == 3
-        C[0].vals[nv] = (uint8_t)((i * 5 + 1) % 3 == 0);
-#else
-        double v = 0.5 * i - 2; memcpy(C[0].vals + 8 * nv, &v, 8);
-#endif
-        nv++;
-    }
-    C[0].nrows = C[1].nrows = N;
+    for (int i = 0; i < N; i++) { int32_t v = 1000 + i; memcpy(C[1].vals + 4 * i, &v, 4); C[1].def[i] = 1; }
+    C[1].nrows = N;
+    if (H_NCOLS > 2) fill_col(2, H_YT, H_YOPT, 1);
 }
-static size_t vsize(void) { return COLTYPE == 0 ? 4 : COLTYPE == 1 ? 8 : COLTYPE == 2 ? sizeof(carquet_byte_array_t) : COLTYPE == 3 ? 1 : 8; }
-static int dense_index(int row) { int n = 0; for (int i = 0; i < row; i++) if (C[0].def[i]) n++; return n; }
+static size_t vsize(int c) { return pq_type_size(S.type[c], S.type_len[c]); }
+static int dense_index(int c, int row) { return pq_present(&S, &C[c], c, 0, row); }
+static int rg_start(int g) { int r = 0; for (int i = 0; i < g; i++) r += RGS[i]; return r; }
 
-/* compare the result of a read of `n` rows starting at logical row `pos` with the known content */
-static void check_read(int pos, int64_t n, const uint8_t* vals, const int16_t* defs) {
-    int d = dense_index(pos), k = 0;
+/* compare the result of a read of `n` rows of column c starting at logical (file) row `pos` with the known content;
+ * defs may be NULL (caller did not ask for levels) */
+static void check_read(int c, int pos, int64_t n, const uint8_t* vals, const int16_t* defs) {
+    int d = dense_index(c, pos), k = 0;
     for (int i = 0; i < n; i++) {
-        if (S.rep[0] != CARQUET_REPETITION_REQUIRED) SYMX_ASSERT(defs[i] == C[0].def[pos + i], "definition level equals the stored one");
-        if (!C[0].def[pos + i]) continue;
-#if COLTYPE == 2
-        const carquet_byte_array_t* got = (const carquet_byte_array_t*)vals + k;
-        SYMX_ASSERT(got->length == C[0].ba[d + k].length, "byte-array length equals the stored one");
-        for (int j = 0; j < C[0].ba[d + k].length; j++) SYMX_ASSERT(got->data[j] == C[0].ba[d + k].data[j], "byte-array bytes equal the stored ones (and are still readable right after the call)");
-#else
-        SYMX_ASSERT(memcmp(vals + (size_t)k * vsize(), C[0].vals + (size_t)(d + k) * vsize(), vsize()) == 0, "non-null value equals the stored one (dense packing)");
-#endif
+        if (S.rep[c] != CARQUET_REPETITION_REQUIRED && defs) SYMX_ASSERT(defs[i] == C[c].def[pos + i], "definition level equals the stored one");
+        if (!C[c].def[pos + i]) continue;
+        if (S.type[c] == CARQUET_PHYSICAL_BYTE_ARRAY) {
+            const carquet_byte_array_t* got = (const carquet_byte_array_t*)vals + k;
+            SYMX_ASSERT(got->length == C[c].ba[d + k].length, "byte-array length equals the stored one");
+            for (int j = 0; j < C[c].ba[d + k].length; j++) SYMX_ASSERT(got->data[j] == C[c].ba[d + k].data[j], "byte-array bytes equal the stored ones (and are still readable right after the call)");
+        } else {
+            SYMX_ASSERT(memcmp(vals + (size_t)k * vsize(c), C[c].vals + (size_t)(d + k) * vsize(c), vsize(c)) == 0, "non-null value equals the stored one (dense packing)");
+        }
         k++;
     }
 }
 
-static uint8_t filebuf[4096]; static size_t filelen;
-static carquet_reader_t* open_mode(int mode) {
+static uint8_t filebuf[8192]; static size_t filelen;
+static carquet_reader_t* open_mode(int mode, int verify) {
     carquet_reader_options_t ro; carquet_reader_options_init(&ro);
     carquet_error_t err; memset(&err, 0, sizeof err);
+    if (verify >= 0) ro.verify_checksums = verify;
     if (mode == 0) return carquet_reader_open_buffer(filebuf, filelen, &ro, &err);
     ro.use_mmap = (mode == 2);
     return carquet_reader_open(PATH, &ro, &err);
 }
 
+/* transcript of everything a consumer observed (C03: compared byte-for-byte between the I/O modes) */
+#define TRMAX 6144
+static uint8_t TR[3][TRMAX]; static int TRN[3];
+static void tr_put(int m, const void* p, size_t n) { SYMX_ASSERT(TRN[m] + (int)n <= TRMAX, "harness: transcript capacity"); memcpy(TR[m] + TRN[m], p, n); TRN[m] += (int)n; }
+static void tr_int(int m, int64_t v) { tr_put(m, &v, 8); }
+
+#if H_PROJ
+/* projection k: 0 = all columns; 1..NP by index; NP+1..2NP the same lists by name.  Lists: every tuple of length 1..H_NCOLS */
+static int proj_decode(int k, int32_t* idx) {          /* k in 0..NP-1 -> tuple; returns its length */
+    int len = 1, cnt = H_NCOLS;
+    while (k >= cnt) { k -= cnt; len++; cnt *= H_NCOLS; }
+    for (int i = 0; i < len; i++) { idx[i] = k % H_NCOLS; k /= H_NCOLS; }
+    return len;
+}
+static int proj_count(void) { int t = 0, cnt = 1; for (int l = 1; l <= H_NCOLS; l++) { cnt *= H_NCOLS; t += cnt; } return t; }
+#endif
+
 void harness(void) {
     table();
     carquet_writer_options_t wo; carquet_writer_options_init(&wo);
-    wo.compression = CODEC; wo.page_size = 1;          /* every write_batch call ends its page */
-    int rg[1] = { N }; pq_wstat_t ws;
+    wo.compression = CODEC; wo.page_size = H_PS;
+    pq_wstat_t ws;
 #ifdef PAGEPATTERN
     /* pages of DIFFERENT sizes (one page per write_batch call): batch boundaries fall inside pages and batch sizes can equal
        the size of a page that was already partly consumed */
     static const int pat[] = { PAGEPATTERN };
     pq_batch_pattern = pat; pq_batch_pattern_len = (int)(sizeof pat / sizeof pat[0]);
-    symx_assume(pq_write(PATH, &S, C, rg, 1, -1, &wo, &ws) == 0);
+    symx_assume(pq_write(PATH, &S, C, RGS, NRG, -1, &wo, &ws) == 0);
 #else
-    symx_assume(pq_write(PATH, &S, C, rg, 1, BATCH, &wo, &ws) == 0);
+    symx_assume(pq_write(PATH, &S, C, RGS, NRG, BATCH, &wo, &ws) == 0);
 #endif
     filelen = symx_file_get(PATH, filebuf, sizeof filebuf);
-    symx_assume(filelen != (size_t)-1);
+    symx_assume(filelen != (size_t)-1 && filelen < sizeof filebuf);
     carquet_error_t err; memset(&err, 0, sizeof err);
+#if OPENMODE == 4
+    int openmode = symx_choice(3, "openmode");
+#else
+    int openmode = OPENMODE;
+#endif
+    (void)openmode;
 #if MODE == 1
-    carquet_reader_t* r = open_mode(OPENMODE);
+    carquet_reader_t* r = open_mode(openmode, -1);
     SYMX_ASSERT(r != NULL, "file written by carquet opens");
-    carquet_column_reader_t* cr = carquet_reader_get_column(r, 0, 0, &err);
+    int g = NRG > 1 ? symx_choice(NRG, "row_group") : 0;
+    int base = rg_start(g), rows = RGS[g];
+    carquet_column_reader_t* cr = carquet_reader_get_column(r, g, 0, &err);
     SYMX_ASSERT(cr != NULL, "column reader");
     int pos = 0;
-    uint8_t* vals = malloc((N + 1) * vsize()); int16_t* defs = malloc((N + 1) * 2);
+    uint8_t* vals = malloc((N + 1) * vsize(0)); int16_t* defs = malloc((N + 1) * 2);
     symx_assume(vals && defs);
     for (int step = 0; step < NOPS; step++) {
+  #if defined(H_RW_ONLY)
+        int op = symx_choice(2, "op");               /* read_batch(k) / skip(k) only */
+  #elif defined(H_OPS5)
+        int op = symx_choice(5, "op");
+  #else
         int op = symx_choice(4, "op");
-        uint8_t kb; symx_make_symbolic(&kb, 1, "k"); symx_assume(kb <= N + 1);
-        int k = kb;
-        int rem = N - pos;
-        if (op == 0) {
-            int64_t n = carquet_column_read_batch(cr, vals, k, defs, NULL);
+  #endif
+        int k = 0;
+        if (op == 0 || op == 1 || op == 4) {
+  #ifdef H_KMAX
+            k = symx_choice(H_KMAX + 1, "k");        /* every k in 0..H_KMAX, one per path (no solver work in long histories) */
+  #else
+            static const char* const knames[6] = {"k0", "k1", "k2", "k3", "k4", "k5"};
+            uint8_t kb; symx_make_symbolic(&kb, 1, knames[step % 6]); symx_assume(kb <= N + 1);
+            k = kb;
+  #endif
+        }
+        int rem = rows - pos;
+        if (op == 0 || op == 4) {
+            int16_t* dp = op == 0 ? defs : NULL;
+            int64_t n = carquet_column_read_batch(cr, vals, k, dp, NULL);
             SYMX_ASSERT(n == (k < rem ? k : rem), "read_batch delivers min(k, remaining) rows");
-            if (n > 0) check_read(pos, n, vals, defs);
+            if (n > 0) check_read(0, base + pos, n, vals, dp);
             if (n > 0) pos += (int)n;
         } else if (op == 1) {
             int64_t n = carquet_column_skip(cr, k);
@@ -139,137 +233,185 @@ void harness(void) {
             SYMX_ASSERT(carquet_column_remaining(cr) == rem, "remaining() equals rows not yet delivered");
         } else {
             carquet_column_reader_free(cr);
-            cr = carquet_reader_get_column(r, 0, 0, &err);
+            cr = carquet_reader_get_column(r, g, 0, &err);
             SYMX_ASSERT(cr != NULL, "column reader re-created");
             pos = 0;
         }
     }
     /* whatever the history was, the rest of the column is delivered unchanged */
-    SYMX_ASSERT(carquet_column_remaining(cr) == N - pos, "remaining() after the history");
+    SYMX_ASSERT(carquet_column_remaining(cr) == rows - pos, "remaining() after the history");
+    SYMX_ASSERT(carquet_column_has_next(cr) == (rows - pos > 0), "has_next after the history");
     int64_t n = carquet_column_read_batch(cr, vals, N + 1, defs, NULL);
-    SYMX_ASSERT(n == N - pos, "the rest of the column is delivered");
-    if (n > 0) check_read(pos, n, vals, defs);
+    SYMX_ASSERT(n == rows - pos, "the rest of the column is delivered");
+    if (n > 0) check_read(0, base + pos, n, vals, defs);
+    SYMX_ASSERT(carquet_column_remaining(cr) == 0 && !carquet_column_has_next(cr), "nothing remains after the chunk was delivered");
     free(vals); free(defs);
     carquet_column_reader_free(cr);
     carquet_reader_close(r);
 #elif MODE == 2
     /* batch reader: symbolic batch_size; concatenation of batches == column content; equal row counts; bitmap polarity fixed */
+  #ifdef H_BSCHOICE
+    int bsb = 1 + symx_choice(N + 1, "batch_size");          /* every batch size 1..N+1, one per path */
+  #else
     uint8_t bsb; symx_make_symbolic(&bsb, 1, "batch_size"); symx_assume(bsb >= 1 && bsb <= N + 1);
+  #endif
+    int32_t idx[4] = {1, 0, 0, 0}; const char* names[4] = {"x", NULL, NULL, NULL};
+    int nproj = 0, byname = 0;                      /* nproj == 0: all columns */
+  #if H_PROJ
+    int NP = proj_count();
+    int proj = symx_choice(1 + 2 * NP, "projection");
+    if (proj > 0) { byname = proj > NP; nproj = proj_decode((proj - 1) % NP, idx); for (int i = 0; i < nproj; i++) names[i] = S.name[idx[i]]; }
+  #else
     int proj = symx_choice(3, "projection");        /* 0: all columns, 1: by index {1,0}, 2: by name {"x"} */
+    if (proj == 1) nproj = 2;
+    if (proj == 2) { nproj = 1; byname = 1; idx[0] = 0; }
+  #endif
   #if OPENMODE == 3
     int nmodes = 3;
   #else
     int nmodes = 1;
   #endif
-    static uint8_t seen_vals[3][N * 16]; static uint8_t seen_null[3][N]; static int seen_rows[3]; static int seen_batches[3][N + 2];
-    int polarity = -1;       /* 1: bit set = null, 0: bit set = not null; decided by the first nullable row seen */
+  #ifdef H_VERIFYCHOICE
+    int verify = symx_choice(2, "verify_checksums");
+  #else
+    int verify = -1;         /* reader default */
+  #endif
+    int polarity = -1;       /* 1: bit set = null, 0: bit set = not null; decided by the first row of a nullable column seen */
+    int reqbit = -1;         /* the bit value bitmaps of REQUIRED columns carry (when they carry a bitmap at all) */
     for (int m = 0; m < nmodes; m++) {
-        int mode = nmodes == 3 ? m : OPENMODE;
-        carquet_reader_t* r = open_mode(mode);
+        int mode = nmodes == 3 ? m : openmode;
+        carquet_reader_t* r = open_mode(mode, verify);
         SYMX_ASSERT(r != NULL, "file opens");
         carquet_batch_reader_config_t bc; carquet_batch_reader_config_init(&bc);
         bc.batch_size = bsb;
-        int32_t idx[2] = {1, 0}; const char* names[1] = {"x"};
-        if (proj == 1) { bc.column_indices = idx; bc.num_columns = 2; }
-        if (proj == 2) { bc.column_names = names; bc.num_column_names = 1; }
+        if (nproj && !byname) { bc.column_indices = idx; bc.num_columns = nproj; }
+        if (nproj && byname) { bc.column_names = names; bc.num_column_names = nproj; }
         carquet_batch_reader_t* br = carquet_batch_reader_create(r, &bc, &err);
         SYMX_ASSERT(br != NULL, "batch reader created");
-        int xcol = proj == 1 ? 1 : 0;                /* position of column "x" inside a batch */
-        int ncols = proj == 2 ? 1 : 2;
+        int ncols = nproj ? nproj : H_NCOLS;
         int pos = 0, nb = 0;
-        for (int it = 0; it < N + 2; it++) {
+        for (int it = 0; it < N + NRG + 2; it++) {
             carquet_row_batch_t* b = NULL;
             carquet_status_t st = carquet_batch_reader_next(br, &b);
             if (st != CARQUET_OK || b == NULL) break;
             int64_t rows = carquet_row_batch_num_rows(b);
             SYMX_ASSERT(carquet_row_batch_num_columns(b) == ncols, "batch has the projected columns");
             SYMX_ASSERT(rows >= 0 && rows <= bsb && pos + rows <= N, "batch row count within batch_size and file");
+            tr_int(m, rows);
             for (int c = 0; c < ncols; c++) {
+                int fc = nproj ? idx[c] : c;             /* file column delivered at position c of the batch */
                 const void* data; const uint8_t* nulls; int64_t nv;
                 SYMX_ASSERT(carquet_row_batch_column(b, c, &data, &nulls, &nv) == CARQUET_OK, "column of a batch");
                 SYMX_ASSERT(nv == rows, "every column of a batch has the same number of rows");
-                if (c != xcol) {
-                    for (int i = 0; i < rows; i++) { int32_t v; memcpy(&v, (const uint8_t*)data + 4 * i, 4); SYMX_ASSERT(v == 1000 + pos + i, "id column rows are aligned with the batch position"); }
-                    continue;
-                }
-                int k = 0, d = dense_index(pos);
+                int k = 0, d = dense_index(fc, pos);
                 for (int i = 0; i < rows; i++) {
-                    int isnull_expected = !C[0].def[pos + i];
-                    if (S.rep[0] != CARQUET_REPETITION_REQUIRED && nulls) {
+                    int isnull_expected = !C[fc].def[pos + i];
+                    if (nulls) {
                         int bit = (nulls[i / 8] >> (i % 8)) & 1;
-                        if (polarity < 0) polarity = isnull_expected ? bit : !bit;
-                        SYMX_ASSERT(bit == (polarity ? isnull_expected : !isnull_expected), "null bitmap separates null from non-null rows as the definition levels do, with one fixed polarity");
-                        seen_null[m][pos + i] = (uint8_t)bit;
+                        if (S.rep[fc] == CARQUET_REPETITION_REQUIRED) {
+                            if (reqbit < 0) reqbit = bit;
+                            SYMX_ASSERT(bit == reqbit, "null bitmap of a REQUIRED column marks every row the same way");
+                        } else {
+                            if (polarity < 0) polarity = isnull_expected ? bit : !bit;
+                            SYMX_ASSERT(bit == (polarity ? isnull_expected : !isnull_expected), "null bitmap separates null from non-null rows as the definition levels do, with one fixed polarity");
+                        }
+                        tr_int(m, bit);
+                    } else {
+                        SYMX_ASSERT(S.rep[fc] == CARQUET_REPETITION_REQUIRED, "a nullable column of a batch carries a null bitmap");
                     }
                     if (isnull_expected) continue;
-  #if COLTYPE == 2
-                    const carquet_byte_array_t* got = (const carquet_byte_array_t*)data + k;
-                    SYMX_ASSERT(got->length == C[0].ba[d + k].length, "byte-array length");
-                    for (int j = 0; j < got->length; j++) SYMX_ASSERT(got->data[j] == C[0].ba[d + k].data[j], "byte-array bytes");
-  #else
-                    SYMX_ASSERT(memcmp((const uint8_t*)data + (size_t)k * vsize(), C[0].vals + (size_t)(d + k) * vsize(), vsize()) == 0, "batch value equals the stored one");
-                    memcpy(seen_vals[m] + (size_t)(d + k) * vsize(), (const uint8_t*)data + (size_t)k * vsize(), vsize());
-  #endif
+                    if (S.type[fc] == CARQUET_PHYSICAL_BYTE_ARRAY) {
+                        const carquet_byte_array_t* got = (const carquet_byte_array_t*)data + k;
+                        SYMX_ASSERT(got->length == C[fc].ba[d + k].length, "byte-array length");
+                        for (int j = 0; j < got->length; j++) SYMX_ASSERT(got->data[j] == C[fc].ba[d + k].data[j], "byte-array bytes");
+                        tr_int(m, got->length); if (got->length) tr_put(m, got->data, got->length);
+                    } else {
+                        SYMX_ASSERT(memcmp((const uint8_t*)data + (size_t)k * vsize(fc), C[fc].vals + (size_t)(d + k) * vsize(fc), vsize(fc)) == 0, "batch value equals the stored one");
+                        tr_put(m, (const uint8_t*)data + (size_t)k * vsize(fc), vsize(fc));
+                    }
                     k++;
                 }
             }
-            seen_batches[m][nb++] = (int)rows;
+            nb++;
             pos += (int)rows;
             carquet_row_batch_free(b);
         }
         SYMX_ASSERT(pos == N, "the concatenation of batches delivers every row exactly once");
-        seen_rows[m] = nb;
+        tr_int(m, nb);
         carquet_batch_reader_free(br);
         carquet_reader_close(r);
     }
+    if (polarity >= 0 && reqbit >= 0) SYMX_ASSERT(reqbit == (polarity ? 0 : 1), "bitmap of a REQUIRED column marks its rows non-null in the same polarity as the nullable columns");
     for (int m = 1; m < nmodes; m++) {
-        SYMX_ASSERT(seen_rows[m] == seen_rows[0], "same number of batches in every I/O mode");
-        SYMX_ASSERT(memcmp(seen_batches[m], seen_batches[0], sizeof seen_batches[0]) == 0, "same batch boundaries in every I/O mode");
-        SYMX_ASSERT(memcmp(seen_null[m], seen_null[0], N) == 0, "same null bitmap in every I/O mode");
+        SYMX_ASSERT(TRN[m] == TRN[0] && memcmp(TR[m], TR[0], (size_t)TRN[0]) == 0, "same batch boundaries, values and null bitmaps in every I/O mode (byte-for-byte)");
     }
 #elif MODE == 3
     /* C03: metadata and column-reader content identical in the three I/O modes (symbolic read size), checksum verification
-       on/off; zero-copy batch data stays readable after further reads until the reader is closed */
+       on/off; batch data stays readable after further reads until the reader is closed */
+  #ifdef H_BSCHOICE
+    int kb = 1 + symx_choice(N + 1, "k");                    /* every read size 1..N+1, one per path */
+  #else
     uint8_t kb; symx_make_symbolic(&kb, 1, "k"); symx_assume(kb >= 1 && kb <= N + 1);
+  #endif
     int verify = symx_choice(2, "verify_checksums");
-    static uint8_t got_vals[3][(N + 1) * 16]; static int16_t got_defs[3][N + 1]; static int got_rows[3];
     for (int m = 0; m < 3; m++) {
-        carquet_reader_options_t ro; carquet_reader_options_init(&ro);
-        ro.verify_checksums = verify; ro.use_mmap = (m == 2);
-        memset(&err, 0, sizeof err);
-        carquet_reader_t* r = m == 0 ? carquet_reader_open_buffer(filebuf, filelen, &ro, &err) : carquet_reader_open(PATH, &ro, &err);
+        carquet_reader_t* r = open_mode(m, verify);
         SYMX_ASSERT(r != NULL, "file opens in every I/O mode");
-        SYMX_ASSERT(carquet_reader_num_rows(r) == N && carquet_reader_num_row_groups(r) == 1 && carquet_reader_num_columns(r) == 2, "identical metadata in every I/O mode");
+        SYMX_ASSERT(carquet_reader_num_rows(r) == N && carquet_reader_num_row_groups(r) == NRG && carquet_reader_num_columns(r) == H_NCOLS, "identical metadata in every I/O mode");
         const carquet_schema_t* sc = carquet_reader_schema(r);
-        SYMX_ASSERT(carquet_schema_num_columns(sc) == 2 && carquet_schema_find_column(sc, "x") == 0 && carquet_schema_find_column(sc, "id") == 1, "identical schema in every I/O mode");
-        carquet_column_reader_t* cr = carquet_reader_get_column(r, 0, 0, &err);
-        SYMX_ASSERT(cr != NULL, "column reader");
-        memset(got_vals[m], 0, sizeof got_vals[m]); memset(got_defs[m], 0, sizeof got_defs[m]);
-        int pos = 0, dense = 0;
-        for (int it = 0; it < N + 2 && pos < N; it++) {
-            uint8_t tmp[(N + 1) * 16]; int16_t td[N + 1];
-            int64_t n = carquet_column_read_batch(cr, tmp, kb, td, NULL);
-            SYMX_ASSERT(n > 0 && pos + n <= N, "reads make progress and stay within the chunk");
-            check_read(pos, n, tmp, td);
-            pos += (int)n;
+        SYMX_ASSERT(carquet_schema_num_columns(sc) == H_NCOLS && carquet_schema_find_column(sc, "x") == 0 && carquet_schema_find_column(sc, "id") == 1, "identical schema in every I/O mode");
+        for (int c = 0; c < H_NCOLS; c++) {
+            const carquet_schema_node_t* nd = carquet_schema_get_element(sc, 1 + c);
+            SYMX_ASSERT(nd != NULL, "schema element");
+            tr_int(m, carquet_schema_node_physical_type(nd)); tr_int(m, carquet_schema_node_repetition(nd)); tr_int(m, carquet_schema_node_type_length(nd));
+            tr_int(m, carquet_schema_node_max_def_level(nd)); tr_int(m, carquet_schema_find_column(sc, S.name[c]));
         }
-        got_rows[m] = pos;
-        SYMX_ASSERT(pos == N, "whole chunk delivered");
-        carquet_column_reader_free(cr);
-        /* zero-copy lifetime: take the first batch, keep its data pointer, read on, then look at it again before close */
+        for (int g = 0; g < NRG; g++) {
+            carquet_row_group_metadata_t gm; memset(&gm, 0, sizeof gm);
+            SYMX_ASSERT(carquet_reader_row_group_metadata(r, g, &gm) == CARQUET_OK, "row group metadata");
+            SYMX_ASSERT(gm.num_rows == RGS[g], "row group row count");
+            tr_int(m, gm.num_rows); tr_int(m, gm.total_byte_size); tr_int(m, gm.total_compressed_size);
+            for (int c = 0; c < H_NCOLS; c++) {
+                carquet_column_reader_t* cr = carquet_reader_get_column(r, g, c, &err);
+                SYMX_ASSERT(cr != NULL, "column reader");
+                SYMX_ASSERT(carquet_column_remaining(cr) == RGS[g], "remaining() of a fresh column reader");
+                int pos = 0;
+                for (int it = 0; it < N + 2 && pos < RGS[g]; it++) {
+                    _Alignas(16) uint8_t tmp[(N + 1) * 16]; int16_t td[N + 1];
+                    int64_t n = carquet_column_read_batch(cr, tmp, kb, td, NULL);
+                    SYMX_ASSERT(n > 0 && pos + n <= RGS[g], "reads make progress and stay within the chunk");
+                    check_read(c, rg_start(g) + pos, n, tmp, td);
+                    tr_int(m, n);
+                    pos += (int)n;
+                }
+                SYMX_ASSERT(pos == RGS[g], "whole chunk delivered");
+                carquet_column_reader_free(cr);
+            }
+        }
+        /* lifetime: take the first batch, keep its data pointer, read on, then look at it again before close */
         carquet_batch_reader_config_t bc; carquet_batch_reader_config_init(&bc);
-        bc.batch_size = BATCH;
+  #ifdef PAGEPATTERN
+        int first = pat[0];                      /* = rows of the first page: the zero-copy branch of the batch reader is taken under mmap */
+  #else
+        int first = RGS[0] < BATCH ? RGS[0] : BATCH;
+  #endif
+        bc.batch_size = first;
         carquet_batch_reader_t* br = carquet_batch_reader_create(r, &bc, &err);
         SYMX_ASSERT(br != NULL, "batch reader");
-        carquet_row_batch_t* b1 = NULL; carquet_row_batch_t* b2 = NULL;
+        carquet_row_batch_t* b1 = NULL; carquet_row_batch_t* b2 = NULL; carquet_row_batch_t* b3 = NULL;
         SYMX_ASSERT(carquet_batch_reader_next(br, &b1) == CARQUET_OK && b1, "first batch");
         const void* d1; const uint8_t* n1; int64_t nv1;
-        SYMX_ASSERT(carquet_row_batch_column(b1, 1, &d1, &n1, &nv1) == CARQUET_OK && nv1 == BATCH, "id column of the first batch");
+        SYMX_ASSERT(carquet_row_batch_column(b1, 1, &d1, &n1, &nv1) == CARQUET_OK && nv1 == first, "id column of the first batch");
         (void)carquet_batch_reader_next(br, &b2);
-        for (int i = 0; i < BATCH; i++) { int32_t v; memcpy(&v, (const uint8_t*)d1 + 4 * i, 4); SYMX_ASSERT(v == 1000 + i, "data of an earlier batch is still valid after further reads"); }
-        carquet_row_batch_free(b2); carquet_row_batch_free(b1);
+        (void)carquet_batch_reader_next(br, &b3);
+        for (int i = 0; i < first; i++) { int32_t v; memcpy(&v, (const uint8_t*)d1 + 4 * i, 4); SYMX_ASSERT(v == 1000 + i, "data of an earlier batch is still valid after further reads"); }
+        carquet_row_batch_free(b3); carquet_row_batch_free(b2);
         carquet_batch_reader_free(br);
+        for (int i = 0; i < first; i++) { int32_t v; memcpy(&v, (const uint8_t*)d1 + 4 * i, 4); SYMX_ASSERT(v == 1000 + i, "data of a batch is still valid after the batch reader was freed (until the batch is freed / the reader closed)"); }
+        carquet_row_batch_free(b1);
         carquet_reader_close(r);
     }
+    for (int m = 1; m < 3; m++)
+        SYMX_ASSERT(TRN[m] == TRN[0] && memcmp(TR[m], TR[0], (size_t)TRN[0]) == 0, "identical metadata and read results in every I/O mode (byte-for-byte)");
 #endif
 }
